@@ -19,7 +19,7 @@ func init() {
 		Doc: "Same-name comparison: every ==/!= between two incarNum fields compares counterparts of the same child name – each operand's base comes from a lookup in, or a range over, " +
 			"one of the child maps (childCollections, childSegStacks, ChildFooters) with the same key value. Comparing a child with its parent (or with anything not keyed by the same name) is a violation.",
 		Props: []string{"C11", "C07", "C04"},
-		Floor: 4,
+		Floor: 3,
 		Run:   ruleInc1,
 	})
 	register(&Rule{
@@ -27,7 +27,7 @@ func init() {
 		Doc: "Constructors set the incarnation: every Footer / segmentStack / collection literal that is stored into a child map (childSegStacks, ChildFooters, childCollections), directly or as the " +
 			"result of the function that builds it, stores incarNum. Exception: revertToSnapshot (revert is specified with the collection closed; restoreCollection renumbers the tree on the next open).",
 		Props:      []string{"C11", "C07", "C04"},
-		Floor:      5,
+		Floor: 4,
 		Run:        ruleInc2,
 		Exceptions: []string{"(*Store).revertToSnapshot: Footer literal without incarNum – revert happens with the collection closed; restoreCollection renumbers on the next open"},
 	})
@@ -36,7 +36,7 @@ func init() {
 		Doc: "Every tree-walker recurses: each function of the frozen table of walkers over the collection / stack / footer / batch tree ranges over the child map of its subject and calls itself " +
 			"inside that loop; and the value of Footer.ss (a stack that by construction has no childSegStacks) never flows into the subject parameter of a walker over childSegStacks.",
 		Props: []string{"C11", "C07", "C04"},
-		Floor: 12,
+		Floor: 9,
 		Run:   ruleInc3,
 	})
 	register(&Rule{
@@ -44,7 +44,7 @@ func init() {
 		Doc: "Base propagation: a tree-walker with a base parameter (segmentStack.merge, Store.writeSegments) passes to its recursive call a value looked up in base's child map by the child's name " +
 			"(nil only on the incarnation-mismatch branch) – never an unconditional nil (MB-29664: operands below the splice point are dropped).",
 		Props: []string{"C08", "C07"},
-		Floor: 2,
+		Floor: 1,
 		Run:   ruleInc4,
 	})
 }
@@ -56,7 +56,7 @@ func init() {
 			"collection.highestIncarNum (a fresh number); and a function that assigns fresh numbers stores the incremented counter back into highestIncarNum, so that a child recreated later " +
 			"never receives the number of a deleted predecessor.",
 		Props: []string{"C11"},
-		Floor: 6,
+		Floor: 5,
 		Run:   ruleInc5,
 	})
 }
